@@ -266,6 +266,29 @@ func genCases(seed uint64, n int, throws bool, w *bufio.Writer) {
 			sort.Slice(rules, func(a, b int) bool { return rules[a].name < rules[b].name })
 			nr = len(rules)
 		}
+		if r.IntN(300) == 0 {
+			// a family of its own: the nullable prefix in front of the recursive reference is established only k rule references
+			// deep - A <- P01 A "x" / "y" ; P01 <- P02 ; ... ; Pk <- "z"? (k on both sides of 16 / 32 / 64 / 128: round 23, a
+			// depth cap in the nullable walk that answers "not nullable")
+			k := []int{3, 15, 16, 17, 31, 32, 33, 63, 64, 65, 70, 129}[r.IntN(12)]
+			ref := func(n string) *node { return &node{tag: "ref", name: n} }
+			lit := func() *node { return &node{tag: "lit"} }
+			pn := func(i int) string { return fmt.Sprintf("P%03d", i) }
+			rules = []rule{{"A", &node{tag: "ch", kids: []*node{{tag: "seq", kids: []*node{ref(pn(1)), ref("A"), lit()}}, lit()}}}}
+			for i := 1; i < k; i++ {
+				rules = append(rules, rule{pn(i), ref(pn(i + 1))})
+			}
+			last := &node{tag: "opt", kids: []*node{lit()}}
+			if r.IntN(4) == 0 {
+				last = lit() // the control: the prefix is NOT nullable, no left recursion
+			}
+			rules = append(rules, rule{pn(k), last})
+			g.names = nil
+			for _, ru := range rules {
+				g.names = append(g.names, ru.name)
+			}
+			nr = len(rules)
+		}
 		if r.IntN(2) == 0 {
 			// the order in which the rules are DEFINED is not the order of their names: the analysis visits the rules in
 			// sorted name order whatever the order of definition (round 21: ComputeNullables in definition order)
